@@ -360,3 +360,52 @@ Theorem C08_fmak_clean_demo :
   fmak_clean 10 minit fx_ops1 = false /\ fmak_clean 10 minit fx_ops2 = false.
 Proof. exact fmak_clean_demo. Qed.
 Print Assumptions C08_fmak_clean_demo.
+(* (12d) The remaining state-level and program-level theorems - (3) k-th evaluation = first, (4) compile-then-evaluate,
+   (6) a redefinition is seen by cached code, (6b) forward references pass their arguments, (7b) order independence
+   of a block of definitions, (11) the program-level statement - over the weaker invariant, i.e. ALSO in every state
+   reached by a history with fmakunbound (C08_history_invariant_fmak: `FM.HInv true` holds after every history from
+   the empty state).  In property terms: after any sequence of definitions, compilations, evaluations and
+   un-definitions, a program means the same whatever the order of its definitions, compiled or not, first or k-th
+   evaluation.  These subsume (3), (4), (6), (6b), (7b), (11) by C08_invariant_weaker; the older ones are kept. *)
+Theorem C08_reevaluation_stable_fmak : forall k n st ft en o e rS oS,
+  FM.Inv true st -> Rel st ft -> evalS n ft en o e = (rS, oS) -> comparable rS = true ->
+  iterM k n st en o e = repeat (rS, oS) k.
+Proof. exact reeval_stable_fmak. Qed.
+Print Assumptions C08_reevaluation_stable_fmak.
+Theorem C08_compile_then_evaluate_fmak : forall n st ft en e rS oS,
+  FM.Inv true st -> Rel st ft -> evalS n ft en (out st) e = (rS, oS) -> comparable rS = true ->
+  (exists st1, evalM n st en e = (rS, st1) /\ out st1 = oS) /\
+  (exists st2, evalM n (compile_slot st e) en e = (rS, st2) /\ out st2 = oS).
+Proof. exact compile_transparent_fmak. Qed.
+Print Assumptions C08_compile_then_evaluate_fmak.
+Theorem C08_redefinition_seen_by_cached_code_fmak : forall n st ft en e g ps body clos r0 st0 rS oS,
+  FM.Inv true st -> Rel st ft -> evalM n st en e = (r0, st0) ->
+  evalS n ((g, (ps, body, clos)) :: ft) en (out st0) e = (rS, oS) -> comparable rS = true ->
+  exists st1, evalM n (defunM st0 g ps body clos) en e = (rS, st1) /\ out st1 = oS.
+Proof. exact late_binding_fmak. Qed.
+Print Assumptions C08_redefinition_seen_by_cached_code_fmak.
+Theorem C08_forward_reference_passes_arguments_fmak : forall n st ft en e g ps body clos rS oS,
+  FM.Inv true st -> Rel st ft -> slookup g (funcs st) = None ->
+  evalS n ((g, (ps, body, clos)) :: ft) en (out st) e = (rS, oS) -> comparable rS = true ->
+  exists st2, evalM n (defunM (compile_slot st e) g ps body clos) en e = (rS, st2) /\ out st2 = oS.
+Proof. exact forward_reference_fmak. Qed.
+Print Assumptions C08_forward_reference_passes_arguments_fmak.
+Theorem C08_order_independent_fmak : forall ds ds' st ft, FM.Inv true st -> Rel st ft ->
+  Permutation ds ds' -> NoDup (map fst ds) ->
+  forall n en e rS oS, evalS n (deftab ds ft) en (out st) e = (rS, oS) -> comparable rS = true ->
+  exists st1 st2, evalM n (defunsM st ds) en e = (rS, st1) /\ evalM n (defunsM st ds') en e = (rS, st2) /\
+                  out st1 = oS /\ out st2 = oS.
+Proof. exact order_independent_fmak. Qed.
+Print Assumptions C08_order_independent_fmak.
+Theorem C08_program_meaning_invariant_fmak : forall n m s es es' ds ds' mains cid cid' cmp cmp' k k',
+  FM.HInv true m s -> defs_are es ds -> defs_are es' ds' -> Permutation ds ds' -> NoDup (map fst ds) ->
+  Forall plain mains -> mains <> [] ->
+  comparable (fst (meaning n ds mains (sft s) (sgv s))) = true ->
+  runM n m (prog cid es mains cmp k) = expected n ds mains s cmp k /\
+  runM n m (prog cid' es' mains cmp' k') = expected n ds mains s cmp' k'.
+Proof. exact program_meaning_fmak. Qed.
+Print Assumptions C08_program_meaning_invariant_fmak.
+Theorem C08_history_invariant_fmak : forall n ops,
+  FM.HInv true (fold_left (fun m o => fst (stepM n m o)) ops minit) (fold_left (fun s o => fst (stepS n s o)) ops sinit).
+Proof. exact HInv_reachable_init. Qed.
+Print Assumptions C08_history_invariant_fmak.
